@@ -81,6 +81,7 @@ Accepts(ev) ==
     [] ev.e = "deadlock"    -> G("C11", "NoDeadlock_EveryCallReturns", FALSE)
     [] ev.e = "panic"       -> G("C11", "NoPanicInLegalState", FALSE)
     [] ev.e = "crash"       -> G("C11", "NoTouchAfterCallback_NoCrash", FALSE)
+    [] ev.e = "hang"        -> G("C11", "EveryCallReturns", FALSE)
     [] OTHER                -> G("C11", "UnmatchableEvent", FALSE)
 
 U(xs) == UNCHANGED xs
